@@ -5,6 +5,7 @@
 //   exact --families wheel:5,prism:4 --alpha A2 ...
 //   exact --replay-case "n=4;e=0-1:1,...;variant=signed;wtype=double"
 #include <memory>
+#include <iostream>
 #include "common/runner.hpp"
 #include "common/graphs.hpp"
 #include "common/bigref.hpp"
@@ -69,6 +70,10 @@ struct Unit { vg::EdgeList el; std::string label; };
 
 int main(int argc, char **argv) {
     vr::Args A(argc, argv);
+#ifdef PARMCB_LOGGING
+    // harness built against a config.hpp with PARMCB_LOGGING on: the library chats on std::cout; the replay path keeps it
+    if (!A.has("replay-case")) std::cout.setstate(std::ios_base::badbit);
+#endif
     Cfg cfg;
     cfg.variants = vv::parse_variants(A.get("variants", "signed,fvs,iso"));
     cfg.w_int = A.get("wtype", "double") == "int";
